@@ -73,6 +73,8 @@ func init() {
 					if tier == "thorough" {
 						shapes = []string{"call-0.1", "call-0.9", "call-1.1", "call-2.5", "call-7", "idle-7", "ticks"}
 					}
+					// a large response over a slow but steady link: its transfer takes 2.5x the timeout
+					shapes = append(shapes, "slowbig")
 					for _, sh := range shapes {
 						b := 0
 						if c.pc == 1 && (sh == "call-1.1" || sh == "ticks") {
@@ -89,7 +91,7 @@ func init() {
 					}
 					// healthy link *after one reconnect* (the keepalive machinery must be re-armed on
 					// the new connection)
-					for _, sh := range []string{"call-2.5", "idle-7"} {
+					for _, sh := range []string{"call-2.5", "idle-7", "slowbig"} {
 						if c.pc > 2 && tier != "thorough" && sh == "idle-7" {
 							continue
 						}
@@ -296,6 +298,23 @@ func keepaliveBody(s *vsched.Sched, p Param) {
 				obs.Set("ret", "ok")
 			} else {
 				obs.Set("ret", "%d/%v", v, err)
+			}
+		})
+	case shape == "slowbig":
+		// a 50 kB response over a slow but steady link: the transfer takes 2.5x the timeout
+		s.Go("caller", func() {
+			s.Env("work-go")
+			li := 0
+			if p.I("after_reconnect") == 1 {
+				li = 1
+			}
+			w.Net.Link(li).Throttle(vnet.S2C, 2000, tc/10)
+			v, err := cli.Big(context.Background(), 0, 50000)
+			done.Store(true)
+			if err == nil && len(v) == 50000 {
+				obs.Set("ret", "ok")
+			} else {
+				obs.Set("ret", "len%d/%v at %v", len(v), err, s.Now())
 			}
 		})
 	case shape == "idle-7":
